@@ -89,36 +89,6 @@ def run(ctx, rep):
         if not seen_pos:
             rep.discharged("C09/T1/lm=%d" % lm, "per-step vectors are only combined point-wise, measured by len, or summed",
                            derivation="%d per-step vector terms, %d Σ reductions, 0 positional operators" % (nvec, nsum))
-        # T2
-        n_leaves = 0
-        for (ci, cname, pres, bc) in e.carriers():
-            if pres is tm.FALSE:
-                continue
-            for p, t, gates in leaves(bc, ()):
-                if p[0] == "carrier":
-                    continue
-                n_leaves += 1
-                try:
-                    D.poly(A.pw(t))
-                except alg.NotScalar:
-                    pass
-        for name in ("balance", "rer", "rer_nrb", "rer_onst"):
-            for p, t, gates in leaves(e.field(name), (name,)):
-                if len(p) > 1 and p[1] == "needs":
-                    continue
-                try:
-                    D.poly(A.scalar(t))
-                except alg.NotScalar:
-                    pass
-        if D.intensive_sums:
-            for at in D.intensive_sums:
-                origin = origin_of(A, at)
-                rep.violated("C09/T2/intensive-sum/%s" % origin,
-                             "only extensive per-step quantities are summed over time", construct=where,
-                             why="Σ_t of a per-step ratio (grows with the number of steps): %s" % A.show_atom(at, 3)[:400])
-        else:
-            rep.discharged("C09/T2/lm=%d" % lm, "every Σ_t summand has energy degree 1",
-                           derivation="%d leaves analysed" % n_leaves)
     ntau = step_extensivity(ctx, rep)
     nn = normalisation_steps(ctx, rep)
     rep.analysed = {"step_vector_terms": nvec, "sum_reductions": nsum, "normalisation_step_vectors": nn}
@@ -240,6 +210,15 @@ def step_extensivity(ctx, rep):
         for k, (cname, d) in sorted(bad.items())[:10]:
             rep.violated("C09/T2/step-power/%s/lm=%d" % (k, lm), "results are invariant when every step is split into equal sub-steps",
                          construct=where, why="%s (%s) scales with the step length to the power %s" % (k, cname, d[2]))
+        # T2 (kept under its original keys): no Σ_t of an intensive per-step quantity
+        if D.intensive_sums:
+            for at in D.intensive_sums:
+                origin = origin_of(A, at)
+                rep.violated("C09/T2/intensive-sum/%s" % origin,
+                             "only extensive per-step quantities are summed over time", construct=where,
+                             why="Σ_t of a per-step ratio (grows with the number of steps): %s" % A.show_atom(at, 3)[:400])
+        else:
+            rep.discharged("C09/T2/lm=%d" % lm, "every Σ_t summand has energy degree 1", derivation="%d leaves analysed" % n)
         guards = [(k, s_) for k, s_ in D.issues if k == "scale-dependent-guard"]
         seen = set()
         for k, s_ in guards:
